@@ -11,6 +11,7 @@
 import GojaModel.C05.Lemmas
 import GojaModel.C05.StrLemmas
 import GojaModel.C05.StrAgree
+import GojaModel.C05.StrToFloat
 import GojaModel.C05.ParseInt
 
 namespace GojaModel.C05.Props
@@ -265,6 +266,11 @@ literal, hex-float rejection, `strconv.ParseFloat`'s specials and decimal gramma
 StringToNumber yields (strip StrWhiteSpace, StrNumericLiteral): same NaN-ness, same sign, same exact decimal
 value.** -/
 theorem strToNum_mech_eq_spec (s : List Nat) : StrNum.mech s = StrNum.spec s := StrNum.mech_eq_spec s
+
+/-- `Value.ToFloat()` of a string (used by `Math.*`, unary minus, `isNaN`, typed-array stores …) tries `_toFloat` first
+and `_toInt` second; `ToNumber` tries them in the other order.  Both orders make the same decisions for EVERY string:
+whenever the integer parse succeeds `_toFloat` succeeds with the same exact value, and an error of both is NaN. -/
+theorem strToFloat_eq_toNumber (t : List Nat) : StrNum.mechToFloatT t = StrNum.mechT t := StrNum.mechToFloatT_eq_mechT t
 
 /-- the same on an already trimmed string -/
 theorem strToNum_mechT_eq_specT (t : List Nat) : StrNum.mechT t = StrNum.specT t := StrNum.mechT_eq_specT t
